@@ -1,4 +1,145 @@
-From LibTw2 Require Import Base.Res Model.Teehistorian.
+(* C17 — teehistorian reading is independent of stream fragmentation.
+   Only the property theorems (about Model/Teehistorian.v), each closed by a lemma
+   proved in Proofs/Teehist*.v, with its axioms printed. *)
+From LibTw2 Require Import Base.Res Model.Varint Model.Packer Model.Teehistorian
+  Proofs.TeehistFrag Proofs.TeehistParsers Proofs.TeehistReader Proofs.TeehistMsgs
+  Proofs.TeehistTicks Proofs.TeehistTop.
+From Coq Require Import List ZArith Lia.
+Import ListNotations.
+Open Scope Z_scope.
+
+(* ---- the generic theorem: ANY client of the buffer that reads through retry loops over
+   prefix-stable parsers produces the same items (and the same final outcome) for every
+   two fragmentations — and every pattern of buffer compactions — of the same stream *)
+Theorem C17_frag_generic :
+  forall (E : Type) (eof : E) (P : Type) (X : P -> Type)
+         (parse : forall p : P, bytes -> outcome (X p) E),
+    (forall p bs a n q, parse p bs = POk a n -> (n <= length bs)%nat /\ parse p (bs ++ q) = POk a n) ->
+    (forall p bs e q, parse p bs = PFail e -> parse p (bs ++ q) = PFail e) ->
+    forall (St Item : Type) (body : St -> prog E P X (option Item * St))
+           fuel st (stream : bytes) (f1 f2 : sched),
+      frags f1 = stream -> frags f2 = stream ->
+      loop E eof P X parse St Item body fuel st empty_buffer f1
+      = loop E eof P X parse St Item body fuel st empty_buffer f2.
+Proof. exact frag_independent. Qed.
+
+(* ---- both hypotheses hold for the header parser, Kind::decode and every Kind::decode_rest,
+   whatever serde_json/chrono (`hdr`) make of the header text *)
+Theorem C17_parsers_stable : forall (hdr : bytes -> hverdict) (p : pidx),
+  (forall bs a n q, parse_at hdr p bs = POk a n ->
+     (n <= length bs)%nat /\ parse_at hdr p (bs ++ q) = POk a n)
+  /\ (forall bs e q, parse_at hdr p bs = PFail e -> parse_at hdr p (bs ++ q) = PFail e).
+Proof.
+  intros hdr p. split.
+  - intros bs a n q. apply parsers_ok_stable.
+  - intros bs e q. apply parsers_fail_stable.
+Qed.
+
+(* ---- the instance: a whole session (Reader::new, then read until None / Err) yields the
+   same item list, the same final error or final reader state, for every two schedules of
+   the read callback (fragment sizes, zero-length reads, compactions) that deliver the same bytes *)
+Theorem C17_fragmentation : forall (hdr : bytes -> hverdict) (stream : bytes) (f1 f2 : sched),
+  frags f1 = stream -> frags f2 = stream ->
+  read_all hdr (fuel_for f1) f1 = read_all hdr (fuel_for f2) f2
+  /\ forall fuel, read_all hdr fuel f1 = read_all hdr fuel f2.
+Proof.
+  intros hdr stream f1 f2 E1 E2. split.
+  - rewrite (fuel_for_frags f1 f2) by congruence. eapply read_all_frag; eassumption.
+  - intros fuel. eapply read_all_frag; eassumption.
+Qed.
+
+(* ---- totality: for every byte stream and every schedule the session ends with Ok(None) or
+   an error value: no slice-index panic, no panic inside a parser, and the caller's loop
+   stops within fuel_for (at most five calls per record) *)
+Theorem C17_total : forall (hdr : bytes -> hverdict) (s : sched),
+  (match snd (read_all hdr (fuel_for s) s) with
+   | Ok _ | Err (FErr _) => True
+   | _ => False
+   end)
+  /\ forall fuel, match snd (read_all hdr fuel s) with
+                  | Panic _ | Err (FPanic _) => False
+                  | _ => True
+                  end.
+Proof.
+  intros hdr s. split.
+  - pose proof (read_all_no_panic hdr (fuel_for s) s) as NP.
+    pose proof (read_all_terminates hdr s) as T.
+    destruct (snd (read_all hdr (fuel_for s) s)) as [r|[e|z]|z|]; try exact I; try contradiction.
+  - intros fuel. pose proof (read_all_no_panic hdr fuel s) as NP.
+    destruct (snd (read_all hdr fuel s)) as [r|[e|z]|z|]; try exact I; try contradiction.
+Qed.
+
+(* ---- ticks: when a session ends with Ok(None), the stream is header ++ records (decoded one
+   after the other up to FINISH), the tick markers are properly nested TickStart t / TickEnd t
+   pairs with strictly increasing t, every other item lies inside a pair, and the tick each
+   record is reported in is the one doc/teehistorian.md's pseudo-code assigns to it *)
+Theorem C17_ticks : forall (hdr : bytes -> hverdict) (s : sched) items rf,
+  read_all hdr (fuel_for s) s = (items, Ok rf) ->
+  exists vn n v ms,
+    parse_header hdr (frags s) = POk vn n /\ version_of vn = Some v
+    /\ decodes v (skipn n (frags s)) ms
+    /\ nested None 0 items
+    /\ item_ticks None items = map Some (doc_reported (map snd ms)).
+Proof. exact read_all_ticks. Qed.
+
+(* ---- running sums: the reported records correspond one to one to the recorded ones, and
+   positions / inputs per client id follow the wrapping (i32) running sums of the recorded
+   differences: PlayerChange reports (old + d) wrapped and the previous value, PlayerOld the
+   last value, Input the component-wise wrapped sum *)
+Theorem C17_running_sums : forall (hdr : bytes -> hverdict) (s : sched) items rf,
+  read_all hdr (fuel_for s) s = (items, Ok rf) ->
+  exists vn n v ms,
+    parse_header hdr (frags s) = POk vn n /\ version_of vn = Some v
+    /\ decodes v (skipn n (frags s)) ms
+    /\ length (filter reported (map snd ms)) = length (payload items)
+    /\ sums_ok (fun _ => None) (fun _ => None) (combine (filter reported (map snd ms)) (payload items)).
+Proof. exact read_all_sums. Qed.
+
+(* iterated wrapping additions are the wrap of the exact sum *)
+Theorem C17_sums_closed_form : forall x0 d ds,
+  fold_left wadd (d :: ds) x0 = i32_of (u32_of (x0 + d + fold_right Z.add 0 ds)).
+Proof. exact wadd_fold. Qed.
+
+(* ---- the translator tie for the hand-modelled functions: the source text the model was
+   written against is the source text of this tree *)
 Theorem C17_pins : hand_pins = src_pins.
 Proof. reflexivity. Qed.
+
+(* ---- non-vacuity and the repaired defect: NEW 3; NEW 5; DIFF 5; TICK_SKIP 0; DIFF 3; FINISH,
+   delivered in three pieces with a zero-length read and a compaction *)
+Definition demo_hdr : bytes -> hverdict := fun _ => HVersion 2.
+Definition demo_records : bytes := [66; 3; 10; 10; 66; 5; 20; 20; 5; 1; 1; 65; 0; 3; 1; 1; 64].
+Definition demo_sched : sched :=
+  [(false, th_magic ++ [123; 125]); (false, []); (true, [0; 66; 3; 10]); (true, skipn 3 demo_records)].
+
+Example C17_nonvacuous :
+  fst (read_all demo_hdr (fuel_for demo_sched) demo_sched)
+  = [TickStart 0; PlayerNew 3 10 10; PlayerNew 5 20 20; TickEnd 0;
+     TickStart 1; PlayerChange 5 21 21 20 20; TickEnd 1;
+     TickStart 2; PlayerChange 3 11 11 10 10; TickEnd 2]
+  /\ is_ok (snd (read_all demo_hdr (fuel_for demo_sched) demo_sched)) = true
+  /\ read_all demo_hdr (fuel_for demo_sched) demo_sched
+     = read_all demo_hdr (fuel_for demo_sched) [(false, frags demo_sched)]
+  /\ doc_reported [FPlayerNew 3 10 10; FPlayerNew 5 20 20; FPlayerDiff 5 1 1; FTickSkip 0;
+                   FPlayerDiff 3 1 1; FFinish] = [0; 0; 1; 2].
+Proof. vm_compute. repeat split. Qed.
+
+(* ---- known finding K17 (outside the model): the real VecMap allocates max key + 1 slots;
+   a 7-byte record asks for 2^31 of them *)
+Example K17_pin :
+  match read_all demo_hdr 100 [(false, th_magic ++ [123; 125; 0] ++ [66; 191; 255; 255; 255; 15; 1; 1; 64])] with
+  | (_, Ok r) => amap_slots (r_players r) = 2147483648
+  | _ => False
+  end.
+Proof. vm_compute. reflexivity. Qed.
+
+Print Assumptions C17_frag_generic.
+Print Assumptions C17_parsers_stable.
+Print Assumptions C17_fragmentation.
+Print Assumptions C17_total.
+Print Assumptions C17_ticks.
+Print Assumptions C17_running_sums.
+Print Assumptions C17_sums_closed_form.
 Print Assumptions C17_pins.
+Print Assumptions C17_nonvacuous.
+Print Assumptions K17_pin.
